@@ -8,4 +8,5 @@ mkdir -p gen ../out/scratch ../evidence
 cd "$HERE" && PYTHONPATH="$HERE" /venv/bin/python -m harness.gen_all || exit 1
 cd "$HERE/coq"
 coq_makefile -f _CoqProject -o Makefile.coq > /dev/null
+ulimit -s unlimited 2>/dev/null || true
 timeout 3000 make -f Makefile.coq -j16
